@@ -230,3 +230,13 @@ Print Assumptions C20_listing_injective.
 Theorem C20_clean_nonvacuous : forallb lf_clean_res lf_ex_table = true.
 Proof. exact lf_ex_clean. Qed.
 Print Assumptions C20_clean_nonvacuous.
+
+(* GET /.well-known/core reaches the built-in handler (to which C20_handle_get applies) exactly
+   when no application resource has that path and no unknown-resource handler asked for it with
+   COAP_RESOURCE_HANDLE_WELLKNOWN_CORE - an unknown-resource GET handler without the flag does
+   not capture it (the selection is tied on live servers with such handlers) *)
+Theorem C20_get_target : forall registered unk_get unk_flag,
+  lf_wk_target registered unk_get unk_flag = LfToBuiltin <->
+  registered = false /\ (unk_flag = false \/ unk_get = false).
+Proof. exact lf_wk_target_builtin. Qed.
+Print Assumptions C20_get_target.
